@@ -106,4 +106,30 @@ theorem inplace_update_breaks_saved_version :
     inplaceScenario { setClonesDirty := false } =
       some ⟨some [(k0, [0]), (k1, [11]), (k2, [2])], some [(k0, [0]), (k1, [11]), (k2, [22])], true⟩ := by decide
 
+/-- Set k0, k1; SaveVersion (version 1); Remove k1 (the persisted leaf k0 becomes the working root;
+the working tree is dirty); then, **before the next commit**, open version 1 — with the code's
+`LazyLoadVersion` (`fast = false`) or with the fast path of `lazyLoadVersionFast` — and iterate. -/
+def lazyScenario (fast : Bool) : Option ReadResult := do
+  let st : St := { cacheSize := 100 }
+  let t : MT := {}
+  let (st, t, _) ← set Cfg.asIs 20 st t k0 [0]
+  let (st, t, _) ← set Cfg.asIs 20 st t k1 [1]
+  let (st, t, _) ← saveVersion Hc 20 st t
+  let (st, t, _, _) ← remove Cfg.asIs 20 st t k1
+  let (st, res) ← if fast then lazyLoadVersionFast st t 1 else lazyLoadVersion st 1
+  match res with
+  | .view root _ => (readRootH 20 st root (.range none none true false)).map (·.2)
+  | _ => none
+
+set_option maxRecDepth 100000 in
+/-- As is: the view of the last committed version opened in the middle of the next block shows the
+committed state (the general statement is `Iavl.Heap.lazyLoad_refines`, which holds for a dirty
+working tree and the currently loaded version like for any other). -/
+theorem lazy_asIs_ok : lazyScenario false = some (.range [(k0, [0]), (k1, [1])]) := by decide
+
+set_option maxRecDepth 100000 in
+/-- **Reusing a persisted working root**: the "historical" view of version 1 is the uncommitted
+working tree — the deleted key is missing. -/
+theorem lazy_fast_path_shows_uncommitted_state : lazyScenario true = some (.range [(k0, [0])]) := by decide
+
 end Iavl.Heap.Counter
